@@ -110,6 +110,9 @@ static const char *opname(int k)
         return "?";
 }
 
+static void build_window();
+static uint8_t *window_base();
+
 struct Client {
         uint8_t *ctx = nullptr;
         bool started = false;   // a message is open (FIRST accepted, LAST not yet)
@@ -173,9 +176,27 @@ struct HashMgrSim : Sim {
                 // 2 whole blocks only, 3 tiny (< 1 block) only, 4 around the padding boundary only
                 p.cfg["len_mode"] = g.chance(1, 2) ? 0 : (int64_t) (1 + g.below(4));
                 p.cfg["len_fixed"] = (int64_t) g.below(1 << 16);
+                // swarm knob: one client submits a single giant segment (2^30 .. 2^32-1 bytes of the periodic window) that stays in
+                // flight for the rest of the run while the other clients keep the lanes busy; the manager is abandoned with the giant
+                // unfinished (legal), so the run costs no more than an ordinary one. Only families with >= 4 lanes (the others hash a
+                // job to the end inside submit).
+                p.cfg["giant"] = (lanes >= 4 && K >= 2 && g.chance(1, 12)) ? (int64_t) (1 + g.below(1 << 20)) : 0;
+                p.cfg["giant_at"] = (int64_t) g.below(40);
+                bool giant_full = false;
+                if (p.cfg["giant"] && g.chance(3, 4)) {
+                        p.cfg["clients"] = K = lanes + 1 + (int) g.below(lanes); // keep every lane occupied around the giant
+                        giant_full = true;
+                }
                 int nops = 10 + (int) g.below(thorough ? 190 : 120);
                 int w_submit = 60 + (int) g.below(30), w_flush = (int) g.below(15), w_drain = (int) g.below(5), w_restart = (int) g.below(6),
                     w_zero = (int) g.below(5), w_reject = faults ? 3 + (int) g.below(15) : 0;
+                if (giant_full) {
+                        // long enough to fill the lanes and then schedule many rounds with all of them occupied; (almost) no flushes
+                        nops += 4 * lanes;
+                        w_drain = 0;
+                        w_flush = (int) g.below(3);
+                        p.cfg["giant_at"] = (int64_t) g.below((uint64_t) (2 * lanes));
+                }
                 int tot = w_submit + w_flush + w_drain + w_restart + w_zero + w_reject;
                 for (int i = 0; i < nops; i++) {
                         Op o;
@@ -201,7 +222,7 @@ struct HashMgrSim : Sim {
                 return p;
         }
 
-        Plan generate_long(uint64_t seed, bool thorough, uint64_t run_index); // C15, defined below
+        Plan generate_long(uint64_t seed, bool thorough, uint64_t run_index, bool giant_alone = false); // C15, defined below
 
         std::string render(const Plan &p) const override
         {
@@ -232,6 +253,8 @@ struct HashMgrSim : Sim {
                 int size_regime;
                 int len_mode = 0;
                 int64_t len_fixed = 0;
+                int64_t giant = 0;        // != 0: client 0 is the giant client
+                bool giant_inflight = false;
                 bool poisoned_api = false; // an earlier rejection happened (C11 "later valid call" clause is live)
                 std::string tag;           // "sha256/avx2/isal"
                 int last_kind = 0;
@@ -414,7 +437,7 @@ struct HashMgrSim : Sim {
         std::vector<int> eligible(St &s, std::function<bool(const Client &)> pred)
         {
                 std::vector<int> v;
-                for (size_t i = 0; i < s.cl.size(); i++)
+                for (size_t i = s.giant ? 1 : 0; i < s.cl.size(); i++) // client 0 is reserved for the giant segment
                         if (pred(s.cl[i]))
                                 v.push_back((int) i);
                 return v;
@@ -548,10 +571,60 @@ struct HashMgrSim : Sim {
                 state_probe(s, flags + 1);
         }
 
+        // the giant client's only submission: one FIRST segment of 2^30 .. 2^32-1 bytes taken from the periodic window
+        void op_giant(St &s)
+        {
+                Env &e = *s.env;
+                build_window();
+                Client &c = s.cl[0];
+                uint64_t g = (uint64_t) s.giant;
+                static const uint64_t cls[8] = { 1ull << 30, (1ull << 30) - 64, 1ull << 31, (1ull << 31) - 64, (1ull << 31) + 64, (1ull << 32) - 64,
+                                                 (1ull << 32) - 1, 0 };
+                uint64_t len = cls[g % 8];
+                if (!len)
+                        len = (1ull << 30) + (mix64(s.plan_seed, 0x91a27) % ((3ull << 30) - 1));
+                const uint8_t *buf = window_base() + (g >> 3) % 4096;
+                c.total = len;
+                c.started = true;
+                c.complete = false;
+                c.last_sent = false;
+                c.ever_used = true;
+                c.nseg++;
+                c.blocks_bucket = 30;
+                s.r->cov.hit(strfmt("probe_giant_segment_in_flight_2^%d", len >= (1ull << 32) - 64 ? 32 : len >= (1ull << 31) - 64 ? 31 : 30));
+                s.r->cov.hit(strfmt("probe_giant_submitted_with_%d_in_flight", std::min(s.inflight, 32)));
+                e.ev(mix64(OP_SUBMIT, 0x61a27ull ^ len));
+                int rc;
+                uint64_t ret = do_submit(s, c.ctx, buf, (uint32_t) len, ISAL_HASH_FIRST, &rc);
+                e.obs(0x11, (uint64_t) rc);
+                if (s.api == API_ISAL && rc != 0)
+                        e.violation("C11", "valid-call-failed", "C11/valid-call-failed/" + std::string(s.d->name) + "/" + s.f->name,
+                                    strfmt("%s: valid submit of a %llu-byte segment returned error %d", s.tag.c_str(), (unsigned long long) len, rc));
+                c.in_flight = true;
+                s.inflight++;
+                s.giant_inflight = true;
+                if (ret == (uint64_t) (uintptr_t) c.ctx) {
+                        // would mean the whole segment was hashed inside submit: not expected of a family with >= 4 lanes, but legal
+                        e.obs(0x10, 0);
+                        c.in_flight = false;
+                        s.inflight--;
+                        s.giant_inflight = false;
+                        c.contract_broken = true; // no reference digest for it
+                        handed_back(s, 0, "its own submit", false);
+                } else
+                        process_return(s, ret, 0, "submit");
+                post_call_invariants(s, "submit");
+                state_probe(s, 9);
+        }
+
         void op_flush(St &s, bool drain)
         {
                 Env &e = *s.env;
                 int guard = 0;
+                // with the giant segment in flight a flush is only issued while some other job is in flight too (that one is the
+                // minimum and comes back); flushing the giant alone would hash all of it
+                if (s.giant_inflight && s.inflight < 2)
+                        return;
                 do {
                         s.r->cov.hit(strfmt("probe_lane_occupancy_at_flush_%d", std::min(s.inflight, 32)));
                         e.ev(mix64(OP_FLUSH, (uint64_t) s.inflight));
@@ -572,6 +645,8 @@ struct HashMgrSim : Sim {
                         post_call_invariants(s, "flush");
                         state_probe(s, 8);
                         if (ret == 0)
+                                break;
+                        if (s.giant_inflight && s.inflight < 2)
                                 break;
                         if (++guard > 200) {
                                 e.violation("C06", "drain-not-terminating", "C06/drain-not-terminating/" + s.tag,
@@ -716,6 +791,7 @@ struct HashMgrSim : Sim {
                 s.size_regime = (int) p.get("size_regime");
                 s.len_mode = (int) p.get("len_mode");
                 s.len_fixed = p.get("len_fixed");
+                s.giant = p.get("giant");
                 s.tag = std::string(s.d->name) + "/" + s.f->name + "/" + (s.api == API_FAMILY ? "family" : s.api == API_ISAL ? "isal" : "legacy");
                 const AlgoDesc &d = *s.d;
                 e.ev(hash_str(s.tag.c_str()));
@@ -767,6 +843,8 @@ struct HashMgrSim : Sim {
                 for (size_t i = 0; i < p.ops.size(); i++) {
                         e.op_index = (int) i;
                         const Op &o = p.ops[i];
+                        if (s.giant && !s.cl[0].ever_used && K >= 2 && s.f->lanes >= 4 && (int64_t) i >= p.get("giant_at") % (int64_t) std::max<size_t>(1, p.ops.size()))
+                                op_giant(s);
                         switch (o.kind) {
                         case OP_SUBMIT: op_submit(s, o, false, false); break;
                         case OP_RESTART: op_submit(s, o, true, false); break;
@@ -780,7 +858,9 @@ struct HashMgrSim : Sim {
                 // end of run: drain; every accepted LAST must have come back COMPLETE
                 e.op_index = (int) p.ops.size();
                 op_flush(s, true);
-                for (size_t i = 0; i < s.cl.size(); i++) {
+                if (s.giant_inflight)
+                        s.r->cov.hit("probe_manager_abandoned_with_giant_unfinished");
+                for (size_t i = s.giant_inflight ? 1 : 0; i < s.cl.size(); i++) {
                         Client &c = s.cl[i];
                         if (c.in_flight)
                                 e.violation("C06", "stranded", "C06/stranded/" + s.tag,
@@ -801,6 +881,7 @@ static const size_t WIN_PERIOD = 2u << 20;
 static const uint64_t WIN_SIZE = (4ull << 30) + 2 * WIN_PERIOD;
 static uint8_t *g_pattern = nullptr;
 
+static uint8_t *window_base() { return g_window; }
 static void build_window()
 {
         if (g_window)
@@ -872,7 +953,7 @@ RefHash long_reference(Algo a, uint64_t goal)
 std::vector<std::pair<int, uint64_t>> long_reference_keys()
 {
         std::vector<std::pair<int, uint64_t>> v;
-        static const uint64_t thr[3] = { 1ull << 29, 1ull << 32, (1ull << 32) + (1ull << 29) };
+        static const uint64_t thr[4] = { 1ull << 29, 1ull << 30, 1ull << 32, (1ull << 32) + (1ull << 29) };
         for (int a = 0; a < A_N; a++)
                 for (uint64_t t : thr)
                         v.emplace_back(a, t + 3 * g_algos[a].block + 17);
@@ -881,7 +962,7 @@ std::vector<std::pair<int, uint64_t>> long_reference_keys()
 
 namespace {
 
-Plan HashMgrSim::generate_long(uint64_t seed, bool thorough, uint64_t run_index)
+Plan HashMgrSim::generate_long(uint64_t seed, bool thorough, uint64_t run_index, bool giant_alone)
 {
         Rng g(seed, "plan-long");
         Plan p;
@@ -904,6 +985,11 @@ Plan HashMgrSim::generate_long(uint64_t seed, bool thorough, uint64_t run_index)
         p.cfg["target"] = target;
         p.cfg["max_long"] = thorough ? 3 : 2;
         p.cfg["short_clients"] = (int) g.below(3);
+        if (giant_alone) {
+                // one client, one ENTIRE segment of 2^30 + 3 blocks + 17 bytes, flushed to the end (with at most two short clients around)
+                p.cfg["target"] = 0;
+                p.cfg["max_long"] = 1;
+        }
         // each op: one scheduling decision; a = client selector, b = length style, c = length value, d = misc
         int nops = 400;
         for (int i = 0; i < nops; i++) {
@@ -952,8 +1038,8 @@ void HashMgrSim::execute_long(const Plan &p, Env &e, RunResult &r)
         // final totals: long client 0 ends a little past the run's target threshold, further long clients a little past the
         // lower thresholds, so that totals in each of [2^29,2^32), [2^32,2^32+2^29) and beyond are completed and checked
         for (int i = 0; i < nlong; i++) {
-                int ti = std::max(1, target - i);
-                uint64_t gi = ti == 1 ? (1ull << 29) : ti == 2 ? (1ull << 32) : (1ull << 32) + (1ull << 29);
+                int ti = target == 0 ? 0 : std::max(1, target - i);
+                uint64_t gi = ti == 0 ? (1ull << 30) : ti == 1 ? (1ull << 29) : ti == 2 ? (1ull << 32) : (1ull << 32) + (1ull << 29);
                 s.cl[i].long_goal = gi + 3 * d.block + 17;
         }
         void *sv[3] = { *d.disp_init, *d.disp_submit, *d.disp_flush };
@@ -1072,6 +1158,10 @@ void HashMgrSim::execute_long(const Plan &p, Env &e, RunResult &r)
                         if (len == 0)
                                 len = 1;
                 }
+                if (target == 0) {
+                        len = remaining; // the whole message in one segment
+                        r.cov.hit("probe_single_ENTIRE_segment_ge_2^30_flushed_to_the_end");
+                }
                 if (len > remaining)
                         len = remaining;
                 if (len > 0xffffffffull)
@@ -1141,3 +1231,10 @@ struct HashLongSim : HashMgrSim {
 };
 } // namespace
 Sim *make_hashlong_sim() { return new HashLongSim(); }
+namespace {
+struct HashGiantSim : HashMgrSim {
+        const char *name() const override { return "hashgiant"; }
+        Plan generate(uint64_t seed, const std::string &, bool thorough, uint64_t idx) override { return generate_long(seed, thorough, idx, true); }
+};
+} // namespace
+Sim *make_hashgiant_sim() { return new HashGiantSim(); }
